@@ -205,18 +205,25 @@ def hash_seed_search(ctx: Ctx) -> None:
 
 def inline_flag_mix(rng) -> dict:
     """Acyclic programs whose modules differ in per-module inline flags (build-wide caches must not let one
-    module's flags leak into another's results whatever the processing order)."""
-    files = {"shapes.py": "from typing import Generic, Optional, TypeVar\nT = TypeVar('T')\nclass Box(Generic[T]):\n"
-                          "    def __init__(self, item: Optional[T] = None) -> None:\n        self.item = item\n"
-                          "class Cov(Generic[T]):\n    def get(self) -> T: ...\n"}
-    flags = ["no-strict-optional", "", "", "no-strict-optional", "disallow-any-generics", "no-warn-no-return"]
-    for i in range(rng.randint(3, 4)):
-        fl = rng.choice(flags)
+    module's flags leak into another's results whatever the processing order).  At least one module is checked
+    without strict optional and at least one with it; all of them ask the same subtype/join questions about
+    invariant, covariant and protocol generics over None vs int."""
+    files = {"shapes.py": "from typing import Generic, Optional, Protocol, TypeVar\nT = TypeVar('T')\nT_co = TypeVar('T_co', covariant=True)\n"
+                          "class Box(Generic[T]):\n    def __init__(self, item: Optional[T] = None) -> None:\n        self.item = item\n"
+                          "class Cov(Generic[T_co]):\n    def __init__(self, item: T_co) -> None:\n        self.item = item\n"
+                          "    def get(self) -> T_co:\n        return self.item\n"
+                          "class Source(Protocol[T_co]):\n    def get(self) -> T_co: ...\n"}
+    n = rng.randint(3, 4)
+    flags = ["no-strict-optional", ""] + [rng.choice(["no-strict-optional", "", "", "disallow-any-generics", "no-warn-no-return"]) for _ in range(n - 2)]
+    rng.shuffle(flags)
+    for i, fl in enumerate(flags):
         head = f"# mypy: {fl}\n" if fl else ""
-        files[f"u{i}.py"] = (head + "from shapes import Box, Cov\nfrom typing import Optional\n"
-                             "def pick(flag: bool, a: Box[None], b: Box[int], c: Cov[None], d: Cov[int]) -> None:\n"
-                             "    reveal_type(a if flag else b)\n    reveal_type(c if flag else d)\n"
-                             "    x: Box[int] = a\n    y: Cov[int] = c\n"
+        files[f"u{i}.py"] = (head + "from typing import List, Optional, Sequence\nfrom shapes import Box, Cov, Source\n"
+                             "def pick(flag: bool, a: Box[None], b: Box[int], c: Cov[None], d: Cov[int]) -> int:\n"
+                             "    reveal_type(a if flag else b)\n    box = c if flag else d\n    reveal_type(box)\n"
+                             "    x: Box[int] = a\n    y: Cov[int] = c\n    return box.get() + 1\n"
+                             "def head(flag: bool, nones: List[None], ints: Sequence[int]) -> int:\n    seq = nones if flag else ints\n    return seq[0] + 1\n"
+                             "def feed(flag: bool, empty: Cov[None], src: Source[int]) -> int:\n    s = empty if flag else src\n    return s.get() + 1\n"
                              "reveal_type(Box)\nz: int = None\n"
                              f"def opt(v: Optional[int]) -> int:\n    return v + {i}\n")
     return files
